@@ -522,6 +522,10 @@ func diffHDR(model string, impl []hdrRow) string {
 
 func (k *checker) check(sp spec, tag string) {
 	s := k.s
+	if sp.Dist == "multi" { // several Metrics values interleaved (multi.go)
+		k.multiCheck(sp)
+		return
+	}
 	lats := sp.generate()
 	n := len(lats)
 	if n == 0 {
@@ -881,6 +885,7 @@ func runC11(c *run.Ctx, s *kit.Summary) {
 		"3% with zero latencies; arrival orders random / sorted / reverse-sorted; per set ~130 quantile arguments (Close's four, the HDR ladder, 0, 1, segment borders ± 1 ulp, tails, out of range, NaN); " +
 		"compression pass: on vegeta's own estimator the Adds that trigger process (all for n ≤ 2500, else the first two, 2% and the last), one plain Add and the process() at Close; plus stand-alone digests with compression 1..20 (tiny buffers, incl. the len(processed) > maxProcessed trigger, weights 1..4, NaN samples) with EVERY Add checked; " +
 		"histories: 30% with 1..3 intermediate Close calls / HDR reports without Close, 20% with a second Close; 30% with failed requests (slowest tenth code 0 + error, other codes mixed); 8% also through `vegeta report` (json, text, hdrplot; gob/JSON/CSV input; a third with -every); oracle on fields, JSON, text, HDR rows and the command's outputs; " +
+		"several Metrics at once: 80 / 800 runs of 2..4 Metrics values with interleaved Add / Close / Quantile / HDR-report calls, every instance judged against its own samples (also when revisited after the others were closed); " +
 		"call sequences: 300 / 5000 random histories of ≤ 40 Add / Close / Quantile / HDR-report calls (queries before the first Add, double Close, timestamps increasing / all equal / decreasing / random) compared call by call with Model/LatencySeq; " +
 		"non-trivial = distinct data set with ≥2 samples and ≥2 distinct values"
 	k := &checker{c: c, s: s, r: r, worst: map[string]float64{}, mc: newMergeChecker(), seenRank: map[string]bool{},
@@ -912,6 +917,14 @@ func runC11(c *run.Ctx, s *kit.Summary) {
 	for i := 0; i < c.N(150, 1500); i++ {
 		directDigest(r, s, k.mc, "d")
 		k.mc.flush(c.Driver, s, false)
+	}
+	// two to four Metrics values alive at once, histories interleaved, each judged against its own samples
+	for i := 0; i < c.N(80, 800); i++ {
+		n := 20 + r.Pick(400)
+		if r.Chance(0.3) {
+			n = 1500 + r.Pick(3000) // past the first compaction of every instance
+		}
+		k.check(spec{Dist: "multi", N: n, Order: "random", Seed: r.Int63()}, "m")
 	}
 	// call sequences (Add / Close / Quantile / HDR report in any order) against Model/LatencySeq.lean
 	seqStream(c, r, s, c.N(300, 5000))
